@@ -298,7 +298,7 @@ def run(prop, tier):
                                           "preDelay": {"frame": "EncryptionResponse", "secs": secs}}, sort_keys=True))
         tinp, toutp = os.path.join(wd, "timed_in.ndjson"), os.path.join(wd, "timed_obs.ndjson")
         trecs = [{"sched": json.loads(x)} for x in scheds]
-        if prop == "C03":
+        if prop in ("C03", "C06"):
             # the Transfer behind a half-written Keep Alive: the transport stalls in mid-frame while routing steps complete (Frames.tla situations)
             import frames_check
             trecs += [{k: v for k, v in r.items() if k != "tag"} for r in frames_check.write_stall_schedules(tier == "thorough")]
